@@ -948,13 +948,13 @@ nothing held, and what they emitted is a prefix of what has been emitted now. -/
 theorem c10_worker_flush_barrier_emitted (S : Strat ι α) (key : ι → κ) (pre post : List (Event ι))
     (s : WState ι) (h : wrun {} (pre ++ .sendFlush :: post) = some s)
     (hdone : countFlush (sentMsgs pre) < s.flushDone) :
-    ∃ a b, s.innerOps = a ++ .flushReq :: b ∧
+    ∃ a b, s.innerOps = a ++ .flushReq :: b ∧ msgsOf a = sentMsgs pre ∧
       inputsOf ((a ++ [IOp.flushReq]).map IOp.toOp) = entriesOf (sentMsgs pre) ∧
       (epochs {} ((a ++ [IOp.flushReq]).map IOp.toOp)).cur = [] ∧
       ∃ more, (krun S key {} (s.innerOps.map IOp.toOp)).emitted =
         (krun S key {} ((a ++ [IOp.flushReq]).map IOp.toOp)).emitted ++ more := by
   obtain ⟨a, b, h1, h2⟩ := c10_worker_flush_barrier pre post s h hdone
-  refine ⟨a, b, h1, ?_, ?_, ?_⟩
+  refine ⟨a, b, h1, h2, ?_, ?_, ?_⟩
   · rw [inputsOf_toOp, msgsOf_append, h2]
     simp [msgsOf, IOp.msg?]
     induction sentMsgs pre with
@@ -965,6 +965,70 @@ theorem c10_worker_flush_barrier_emitted (S : Strat ι α) (key : ι → κ) (pr
       rw [h1]; simp
     rw [this, krun_append]
     exact krun_emitted_prefix S key _ _
+
+/-- the `i`-th flush request of a history -/
+theorem nth_flush_split (evs : List (Event ι)) (i : Nat) (h : i < countFlush (sentMsgs evs)) :
+    ∃ pre post, evs = pre ++ .sendFlush :: post ∧ countFlush (sentMsgs pre) = i := by
+  induction evs generalizing i with
+  | nil => simp [sentMsgs, countFlush] at h
+  | cons ev evs ih =>
+    cases ev with
+    | sendFlush =>
+      cases i with
+      | zero => exact ⟨[], evs, rfl, rfl⟩
+      | succ j =>
+        have hj : j < countFlush (sentMsgs evs) := by simp [sentMsgs, countFlush] at h; omega
+        obtain ⟨pre, post, h1, h2⟩ := ih j hj
+        exact ⟨.sendFlush :: pre, post, by simp [h1], by simp [sentMsgs, countFlush, h2]⟩
+    | send e =>
+      have hj : i < countFlush (sentMsgs evs) := by simpa [sentMsgs, countFlush] using h
+      obtain ⟨pre, post, h1, h2⟩ := ih i hj
+      exact ⟨.send e :: pre, post, by simp [h1], by simp [sentMsgs, countFlush, h2]⟩
+    | clone =>
+      have hj : i < countFlush (sentMsgs evs) := by simpa [sentMsgs] using h
+      obtain ⟨pre, post, h1, h2⟩ := ih i hj
+      exact ⟨.clone :: pre, post, by simp [h1], by simp [sentMsgs, h2]⟩
+    | dropHandle =>
+      have hj : i < countFlush (sentMsgs evs) := by simpa [sentMsgs] using h
+      obtain ⟨pre, post, h1, h2⟩ := ih i hj
+      exact ⟨.dropHandle :: pre, post, by simp [h1], by simp [sentMsgs, h2]⟩
+    | recv t =>
+      have hj : i < countFlush (sentMsgs evs) := by simpa [sentMsgs] using h
+      obtain ⟨pre, post, h1, h2⟩ := ih i hj
+      exact ⟨.recv t :: pre, post, by simp [h1], by simp [sentMsgs, h2]⟩
+    | timeout =>
+      have hj : i < countFlush (sentMsgs evs) := by simpa [sentMsgs] using h
+      obtain ⟨pre, post, h1, h2⟩ := ih i hj
+      exact ⟨.timeout :: pre, post, by simp [h1], by simp [sentMsgs, h2]⟩
+    | disconnect =>
+      have hj : i < countFlush (sentMsgs evs) := by simpa [sentMsgs] using h
+      obtain ⟨pre, post, h1, h2⟩ := ih i hj
+      exact ⟨.disconnect :: pre, post, by simp [h1], by simp [sentMsgs, h2]⟩
+
+/-- **C10, flush barrier for EVERY answered request** (any number of requests outstanding at once,
+from any handles, in any interleaving with the worker): in every reachable state, for each `i`
+below the number of answered requests, the `i`-th flush request of the history exists, and the
+worker's history splits at the flush that answers it as `a ++ flushReq :: b` where the messages
+consumed in `a` are exactly the messages sent before that request (entries and the `i` earlier
+requests, in order); the operations up to and including that flush contain exactly the entries
+sent before the request, leave nothing held, and their emissions are a prefix of what has been
+emitted. In particular each answered request has its own flush of the inner sink, after every
+entry sent before it: requests are neither answered early nor coalesced. -/
+theorem c10_worker_every_flush_barrier (S : Strat ι α) (key : ι → κ) (evs : List (Event ι)) (s : WState ι)
+    (h : wrun {} evs = some s) (i : Nat) (hi : i < s.flushDone) :
+    ∃ pre post a b, evs = pre ++ .sendFlush :: post ∧ countFlush (sentMsgs pre) = i ∧
+      s.innerOps = a ++ .flushReq :: b ∧ msgsOf a = sentMsgs pre ∧
+      inputsOf ((a ++ [IOp.flushReq]).map IOp.toOp) = entriesOf (sentMsgs pre) ∧
+      (epochs {} ((a ++ [IOp.flushReq]).map IOp.toOp)).cur = [] ∧
+      ∃ more, (krun S key {} (s.innerOps.map IOp.toOp)).emitted =
+        (krun S key {} ((a ++ [IOp.flushReq]).map IOp.toOp)).emitted ++ more := by
+  obtain ⟨f1, f2⟩ := c10_worker_fifo evs s h
+  have hle : s.flushDone ≤ countFlush (sentMsgs evs) := by
+    rw [← f1, countFlush_append, f2]; omega
+  obtain ⟨pre, post, e1, e2⟩ := nth_flush_split evs i (by omega)
+  subst e1
+  obtain ⟨a, b, r⟩ := c10_worker_flush_barrier_emitted S key pre post s h (by omega)
+  exact ⟨pre, post, a, b, rfl, e2, r⟩
 
 end WorkerAgg
 
@@ -997,6 +1061,16 @@ example : ∃ s, wrun ({} : WState Nat) ([.send 1] ++ .sendFlush :: [.send 2, .r
   refine ⟨_, rfl, ?_⟩
   decide
 
+/-- two flush requests in flight at once (from two handles), an entry between them: both are
+answered, each by its own flush, the second only after the entry sent between them was merged -/
+example :
+    (wrun ({} : WState Nat) [.send 1, .clone, .sendFlush, .send 2, .sendFlush,
+        .recv false, .recv false, .recv false, .recv false]).map
+      (fun s => (s.flushDone, s.chan.length, s.innerOps.map fun o => match o with
+        | .merge e => e | .flushReq => 100 | .flushTimer => 200 | .flushFinal => 300)) =
+      some (2, 0, [1, 100, 2, 100]) := by
+  decide
+
 end Aggregation
 
 #print axioms Aggregation.c10_conservation
@@ -1012,3 +1086,4 @@ end Aggregation
 #print axioms Aggregation.c10_worker_to_exit
 #print axioms Aggregation.c10_worker_exit_emits_all
 #print axioms Aggregation.c10_worker_flush_barrier_emitted
+#print axioms Aggregation.c10_worker_every_flush_barrier
